@@ -29,6 +29,9 @@ pub struct AofEngine {
     
     /// Is background rewrite in progress?
     rewrite_in_progress: Arc<Mutex<bool>>,
+    
+    /// Database of the last command written by this process (None: nothing written yet)
+    logged_db: Arc<Mutex<Option<usize>>>,
 }
 
 /// AOF configuration
@@ -89,6 +92,7 @@ impl AofEngine {
             config,
             last_fsync: Arc::new(Mutex::new(Instant::now())),
             rewrite_in_progress: Arc::new(Mutex::new(false)),
+            logged_db: Arc::new(Mutex::new(None)),
         }
     }
     
@@ -139,6 +143,26 @@ impl AofEngine {
         }
         
         Ok(())
+    }
+    
+    /// Append a command that was executed in database `db`. The file carries no database
+    /// numbers of its own, so a SELECT is written whenever the database differs from the one of
+    /// the previous command (and before the first command of this process).
+    pub fn append_command_in_db(&self, db: usize, command: &[RespFrame]) -> Result<()> {
+        if !self.config.enabled {
+            return Ok(());
+        }
+        
+        let mut logged_db = self.logged_db.lock().unwrap();
+        if *logged_db != Some(db) {
+            self.append_command(&[
+                RespFrame::from_string("SELECT"),
+                RespFrame::from_string(db.to_string()),
+            ])?;
+            *logged_db = Some(db);
+        }
+        
+        self.append_command(command)
     }
     
     /// Append a command to the AOF
@@ -258,6 +282,7 @@ impl Clone for AofEngine {
             config: self.config.clone(),
             last_fsync: Arc::clone(&self.last_fsync),
             rewrite_in_progress: Arc::clone(&self.rewrite_in_progress),
+            logged_db: Arc::clone(&self.logged_db),
         }
     }
 }
